@@ -34,8 +34,10 @@ REQUIRED_COUNTERS = ['direct_time.requested', 'direct_time.past_end', 'mps.creat
 UTC = datetime.timezone.utc
 TRACKS = {'bbb': [('video', 1), ('audio', 2), ('audio', 3), ('text', 4)],
           'tears': [('video', 1), ('audio', 2)],
-          'dots': [('video', 1), ('audio', 2)]}       # media file names with dots in them
-SRC_DUR = {'bbb': 40, 'tears': 64, 'dots': 40}
+          'dots': [('video', 1), ('audio', 2)],       # media file names with dots in them
+          'sy2': [('video', 1), ('audio', 2)],        # fragments numbered from 5, no tfdt, irregular durations
+          'cut': [('video', 1), ('audio', 2)]}        # 32 s of video (timing reference), 40 s of audio
+SRC_DUR = {'bbb': 40, 'tears': 64, 'dots': 40, 'sy2': 39, 'cut': 32}
 
 
 def shards(tier: str) -> int:
@@ -50,7 +52,7 @@ def gen_definition(rng, idx: int, spk: dict) -> dict:
     n = rng.choice([1, 2, 2, 3, 4])
     periods = []
     for i in range(n):
-        stream = rng.choice(['bbb', 'bbb', 'tears', 'tears', 'dots'])
+        stream = rng.choice(['bbb', 'bbb', 'tears', 'tears', 'dots', 'sy2', 'cut'])
         total = SRC_DUR[stream]
         start = rng.choice([0, 4, 8, 12, 2, 5.5, 7.9, rng.randrange(0, total - 12)])
         # the API snaps the start to the nearest segment of the timing reference (up to +2 s)
@@ -185,6 +187,17 @@ class MpsWalk:
         if len(res.samples) < 4:
             res.samples.append({'url': url, 'periods': [(p.id, float(p.start or 0), float(p.duration or 0)) for p in periods]})
 
+    def reference_seconds(self, stream_dir: str):
+        """duration of the (clear) video file of the stream, which the harness makes its timing reference"""
+        cache = self.__dict__.setdefault('_ref_s', {})
+        if stream_dir not in cache:
+            cache[stream_dir] = None
+            for (d, name), f in sorted(self.index.files.items()):
+                if d == stream_dir and f.handler == b'vide' and f.tenc is None:
+                    cache[stream_dir] = Fraction(f.duration, f.timescale)
+                    break
+        return cache[stream_dir]
+
     def walk_direct_time(self, label, rep, sf, key, starts, k0, rp, rng, target=None) -> None:
         """$Time$ requests built by hand, independent of what the manifest's SegmentTimeline says:
         time t counts from the Period's first source segment (the handler's own convention), so
@@ -195,7 +208,13 @@ class MpsWalk:
         if not iu or '/init.' not in iu:
             return
         n = len(sf.segments)
-        picks = sorted({0, 1, (n - k0) // 2, n - k0 - 1} & set(range(n - k0)))
+        # time addressing is bounded by the duration of the stream's timing reference (the loop length); a track
+        # with more media than that is only reachable by number beyond it
+        ref_s = self.reference_seconds(key[0])
+        n_time = n
+        if ref_s is not None:
+            n_time = max(k0 + 1, sum(1 for k in range(n) if Fraction(starts[k] + sf.segments[k].duration, rep.timescale) <= ref_s))
+        picks = sorted({0, 1, (n_time - k0) // 2, n_time - k0 - 1} & set(range(max(0, n_time - k0))))
         for j in picks:
             t = starts[k0 + j] - starts[k0]
             u = iu.replace('/init.', f'/time/{t}.')
@@ -235,12 +254,16 @@ class MpsWalk:
             if tfdt != t:
                 res.violation('period-direct-time-decode-time-differs', f'{label}: {what}: tfdt {tfdt}', rp)
                 return
-            if frag.sequence_number != rep.start_number + j_seq:
+            # (hand-built $Time$ requests are not part of the statement; the live handler renumbers them by
+            # position in the source, which equals startNumber + j only for sources numbered from 1)
+            if rep.start_number == 1 and frag.sequence_number != rep.start_number + j_seq:
                 res.violation('period-direct-time-sequence-number-differs',
                               f'{label}: {what}: mfhd sequence number {frag.sequence_number}, '
                               f'expected startNumber {rep.start_number} + {j_seq}', rp)
                 return
             res.count('direct_time.held')
+        if n_time != n:
+            return
         # one and two segment durations past the end of the source
         last = sf.segments[-1].duration
         for extra in (0, last):
@@ -379,6 +402,11 @@ def run_shard(ctx: ShardCtx) -> ShardResult:
     try:
         spk = {'bbb': env.add_fixture_stream('bbb'), 'tears': env.add_fixture_stream('tears'),
                'dots': env.add_dotted_names_stream()}
+        from dlv import synth
+        synth.add_synthetic_streams(env, ctx, res)
+        spk['cut'] = synth.add_short_reference_stream(env, res)
+        with env.app.app_context():
+            spk['sy2'] = env.models.Stream.get(directory='sy2').pk
         index = StoredIndex(env)
         reach = Reach([
             ('dashlive.server.requesthandler.manifest_context', 'ManifestContext.create_all_vod_periods'),
